@@ -10,7 +10,7 @@ T=$(PYTHONPATH=$CF/src /venv/bin/python -m pytest -q -p no:cacheprovider --timeo
 mkdir -p /tmp/ev_$TAG; rm -f /tmp/ev_$TAG/rc.txt
 cd /verif
 for c in C01 C02 C03 C04 C05 C06 C07 C08 C09 C10 C11 C12 C13 C15 C16 C17 C18 C19 C20; do echo $c; done | \
-  xargs -P 16 -I{} sh -c "VERIF_REPO=$CF VERIF_EVIDENCE_DIR=/tmp/ev_$TAG python3 sa/check.py {} > /tmp/ev_$TAG/{}.out 2>&1; echo \"{} rc=\$?\" >> /tmp/ev_$TAG/rc.txt"
+  xargs -P 6 -I{} sh -c "VERIF_REPO=$CF VERIF_EVIDENCE_DIR=/tmp/ev_$TAG python3 sa/check.py {} > /tmp/ev_$TAG/{}.out 2>&1; echo \"{} rc=\$?\" >> /tmp/ev_$TAG/rc.txt"
 BAD=$(sort /tmp/ev_$TAG/rc.txt | grep -v "rc=0" | tr '\n' ' ')
 echo "$TAG: suite[$T] nonzero[$BAD]"
 grep -h "FAILED\|ANALYSIS-ERROR" /tmp/ev_$TAG/*.out | sort | uniq -c | cut -c1-330
